@@ -393,6 +393,11 @@ impl Installation {
         {
             let mut index_manager = self.index_manager.write().await;
             index_manager.add_entry(&encoding_key, archive_id, archive_offset, size)?;
+
+            // Persist the updated index like `DynamicContainer::write` does. Nothing else
+            // saves it, so without this every key written here is gone (NotFound) once the
+            // installation is dropped and opened again, although its bytes are in the archive.
+            index_manager.save_all()?;
         }
 
         info!(
